@@ -40,6 +40,10 @@ var c17Fixed = []string{
 	"2024-01-01 x\n    a:b  1 USD\n",
 	"2024-01-01 x\n    a:b  2 USD\n",
 	"2024-01-01 x\n    a:c  1 USD\n",
+	// tag names and values outside ASCII (two-byte, three-byte and non-BMP runes): a tag token is
+	// measured in UTF-16 units like every other token
+	"2024-01-01 x  ; тег:значение, b:c\n    a:b  1 USD ; ключ: знач\n",
+	"; 标签:值, 𝒳y:𝒵 z\n2024-01-01 y\n    a:b  1  ; é:è, ß_1:ü-2\n",
 }
 
 func c17Contents(r *rng, st *stats) []string {
